@@ -884,6 +884,26 @@ pub fn text_family(kind: usize, len: usize) -> Vec<u8> {
                 v.push(b"acgt"[p as usize]);
             }
         }
+        8 => {
+            // document with large repeated sections: later parts copy long segments (300-2000 bytes)
+            // of earlier parts with small edits, so matches of length 258 are later referenced inside
+            let mut seedtxt = text_family(1, 3000);
+            seedtxt.extend_from_slice(&text_family(2, 1500));
+            v.extend_from_slice(&seedtxt);
+            while v.len() < len {
+                let n = 300 + (next() as usize % 1700);
+                let o = (next() as usize * 13) % (v.len() - n.min(v.len() - 1));
+                let n = n.min(v.len() - o);
+                let seg: Vec<u8> = v[o..o + n].to_vec();
+                v.extend_from_slice(&seg);
+                // a small edit
+                let e = v.len() - 1 - (next() as usize % n.max(1));
+                v[e] = v[e].wrapping_add(1 + (next() % 5) as u8);
+                if next() % 3 == 0 {
+                    v.extend_from_slice(&text_family(1, 40 + (next() % 200) as usize));
+                }
+            }
+        }
         _ => {
             // mixed: runs, text and noise
             while v.len() < len {
